@@ -777,6 +777,8 @@ func runC10(c *Ctx) {
 	c10RunProvocations(c, boost)
 	// ---- the ORDER of fork ids (static ragged nested map calls, run-time expansion) ----
 	c10ForkOrder(c, rt)
+	// ---- the same order vs the Lean model Martian.ForkOrder (several fork roots, run-time expansion) ----
+	c10ForkModel(c, rt)
 	// ---- history independence of a reused Parser ----
 	c10History(c)
 }
